@@ -37,8 +37,14 @@ class RunnerS:
         self.bins = vlib.harness_build(profiles, bins=["asmtext"])
 
     def impl(self, cases, profile="debug"):
-        """cases: (text, budget, static, matching)"""
-        lines = ["A\t%d\t%d\t%d\t%s" % (b, 1 if s else 0, 1 if m else 0, vlib.hx(t)) for (t, b, s, m) in cases]
+        """cases: (text, budget, static, matching[, defines text `name=value,...`])"""
+        lines = []
+        for c in cases:
+            (t, b, s, m) = c[:4]
+            l = "A\t%d\t%d\t%d\t%s" % (b, 1 if s else 0, 1 if m else 0, vlib.hx(t))
+            if len(c) > 4 and c[4]:
+                l += "\t\t" + c[4]
+            lines.append(l)
         return vlib.run_lines([self.bins[profile] + "/asmtext"], lines)
 
     def model_run(self, cases, analysis=None):
@@ -75,7 +81,10 @@ FAMILIES = [
     ("gen_frozen", 12, asm_gen.gen_frozen_prog),
     ("labelfree", 12, static_gen.gen_labelfree),
     ("static_mix", 22, static_gen.gen_static_mix),
-    ("reserved", 5, static_gen.gen_reserved),
+    ("reserved", 9, static_gen.gen_reserved),
+    ("block_addr", 8, static_gen.gen_block_addr),
+    ("userfn", 5, static_gen.gen_userfn),
+    ("defines", 6, static_gen.gen_defines),
 ]
 
 
@@ -85,9 +94,46 @@ def gen_one(rng):
     return name, fn(rng)
 
 
+def source_table(path, fn_name):
+    """the string arms of a `match name { "x" => true, ... _ => false }` function of the source: ({name: bool}, default)"""
+    import re
+    src = open(os.path.join(vlib.REPO, path)).read()
+    m = re.search(r'pub fn %s\b.*?\n\{(.*?)\n\}' % fn_name, src, re.S)
+    if not m:
+        return None, None
+    arms = {k: v == "true" for k, v in re.findall(r'"([A-Za-z0-9_]+)"\s*=>\s*(true|false)', m.group(1))}
+    d = re.search(r'\b_\s*=>\s*(true|false)', m.group(1))
+    return arms, (d.group(1) == "true") if d else None
+
+
+def table_obligations(chk, R):
+    """table obligation of the theorems: the model's lists of statically known function names are the source's"""
+    tv, dv = source_table("src/expr/builtin_fn.rs", "get_statically_known_value_builtin_fn")
+    ta, da = source_table("src/asm/resolver/eval_fn.rs", "get_statically_known_builtin_fn")
+    if tv is None or ta is None or dv is None or da is None:
+        chk.violation("cannot read the tables of statically known functions from the source",
+                      {"kind": "static_tables", "value_fn": str(tv), "asm_fn": str(ta), "theorems": THEOREMS}, found=False)
+        return
+    probes = sorted(set(tv) | set(ta) | {"after", "f", "main", "le2", "incbins", "Assert"})
+    out = vlib.run_lines([R.model], ["T\t" + " ".join(vlib.hx(n) for n in probes)], shards=1)[0].split("\t")
+    got = dict(kv.split("=") for kv in out[1].split(";")) if len(out) > 1 and out[0] == "TABLE" else {}
+    bad = []
+    for n in probes:
+        g = got.get(vlib.hx(n), "??")
+        want = ("1" if tv.get(n, dv) else "0") + ("1" if ta.get(n, da) else "0")
+        if g != want:
+            bad.append((n, "source value/asm = %s" % want, "model = %s" % g))
+    chk.count("static_table_obligations", len(probes), mismatches=len(bad))
+    if bad:
+        chk.violation("table obligation broken: the functions the source calls statically known are not the model's "
+                      "(get_statically_known_value_builtin_fn / get_statically_known_builtin_fn): %s" % bad[:6],
+                      {"kind": "static_tables", "mismatches": bad, "theorems": THEOREMS}, found=False)
+
+
 def run_streams(chk, quick, n=None):
     """Entry point for c08.py (and c02.py):  ext_static.run_streams(chk, chk.tier == "quick")"""
     R = RunnerS(("debug",))
+    table_obligations(chk, R)
     rng = chk.rng.fork("ext_static")
     n = n or (1200 if quick else 10000)
     known_classes = {f.get('class') for f in vlib.known_findings() if f.get('status') == 'known'}
@@ -95,19 +141,26 @@ def run_streams(chk, quick, n=None):
     for _ in range(n):
         fam, p = gen_one(rng)
         progs.append((fam, p, rng.chance(0.7)))          # matcher optimisation on/off (the same for both static settings)
-    icases, mcases, rcases = [], [], []
+    icases, mcases, rcases, scases = [], [], [], []
     for (fam, p, m) in progs:
         t = p.text()
+        dfs = ",".join("%s=%s" % kv for kv in sorted(getattr(p, "defines", {}).items()))
+        # the model of a program with command-line defines is the model of the program with those declarations rewritten
+        pm = getattr(p, "subst", None) or p
         for b in BUDGETS:
             for s in (True, False):
-                icases.append((t, b, s, m))
-                mcases.append((p, b, s, m))
-        rcases.append((p, 1, True, m, "report"))
+                icases.append((t, b, s, m, dfs))
+                mcases.append((pm, b, s, m))
+                if getattr(p, "subst", None) is not None:
+                    scases.append((p.subst.text(), b, s, m))
+        rcases.append((pm, 1, True, m, "report"))
     ia = R.impl(icases)
     ma = R.model_run(mcases)
     ra = R.model_run(rcases)
+    sa = R.impl(scases)
+    sidx = 0
     per = len(BUDGETS) * 2
-    dist = {"ok": 0, "err": 0, "f70": 0, "passes_differ": 0, "model_skipped_reserved": 0, "model_resource_limit": 0,
+    dist = {"ok": 0, "err": 0, "f70": 0, "passes_differ": 0, "model_skipped_reserved": 0, "model_resource_limit": 0, "defines_checked": 0,
             "with_known_instr": 0, "with_unknown_instr": 0, "with_known_data": 0, "with_unknown_data": 0, "with_known_const": 0,
             "known_instr_only_before_repairs": 0}
     fam_dist = {}
@@ -127,16 +180,30 @@ def run_streams(chk, quick, n=None):
             dist["known_instr_only_before_repairs"] += ki != ki_old
             mixed = ("1" in ki + kd) and ("0" in ki + kd or "0" in ks)
         # the model's variable lookup does not know the asm built-in functions (F54 names outside the fragment)
-        skip_model = getattr(p, "reserved_name", None) in static_gen.ASM_BUILTINS
+        skip_model = (getattr(p, "reserved_name", None) in static_gen.ASM_BUILTINS or getattr(p, "no_model", False)
+                      or (getattr(p, "defines", None) and getattr(p, "subst", None) is None))
+        # -d name=value must be indistinguishable from declaring the constant with that literal, under either setting
+        if getattr(p, "subst", None) is not None:
+            for bi, b in enumerate(BUDGETS):
+                for si2, s in enumerate((True, False)):
+                    cd, cs = asm_gen.canon_impl(ia[pi * per + bi * 2 + si2]), asm_gen.canon_impl(sa[sidx])
+                    sidx += 1
+                    if sig(cd) != sig(cs) and not any(v[1].get("program") == text for v in chk.violations):
+                        chk.violation("a command-line define does not behave like the declaration it overrides (static_opt=%d, budget %d): "
+                                      "with -d %s: %s; with the declaration rewritten: %s" % (s, b, p.defines, str(sig(cd))[:200], str(sig(cs))[:200]),
+                                      {"kind": "static", "family": fam, "program": text, "defines": p.defines, "budget": b, "static_opt": s,
+                                       "matcher_opt": m, "impl": ia[pi * per + bi * 2 + si2][:1000], "rewritten": p.subst.text()})
+                    dist["defines_checked"] += 1
         res = {}
         bad = False
+        corr = None
         for bi, b in enumerate(BUDGETS):
             for si, s in enumerate((True, False)):
                 k = pi * per + bi * 2 + si
                 ci, cm = asm_gen.canon_impl(ia[k]), asm_gen.canon_model(ma[k])
                 res[(b, s)] = ci
-                rep = {"kind": "static", "family": fam, "program": text, "budget": b, "static_opt": s, "matcher_opt": m,
-                       "impl": ia[k][:2000], "model": ma[k][:2000]}
+                rep = {"kind": "static", "family": fam, "program": text, "defines": getattr(p, "defines", None), "budget": b, "static_opt": s,
+                       "matcher_opt": m, "impl": ia[k][:2000], "model": ma[k][:2000]}
                 if ci[0] not in ("OK", "ERR"):
                     chk.violation("implementation crashed or was inconsistent (%s)" % ci[0], rep)
                     bad = True
@@ -150,22 +217,22 @@ def run_streams(chk, quick, n=None):
                 elif cm[0] == "CRASH":
                     # the extracted model ran out of stack / memory (magnitudes are C19's subject); counted, not compared
                     dist["model_resource_limit"] += 1
-                elif ci != cm:
-                    ndis += 1
+                elif ci != cm and corr is None:
+                    # reported below, after the implementation-only comparison of the two settings (a concrete failing input
+                    # of the property itself takes precedence over the broken tie)
                     what = "pass count" if sig(ci) == sig(cm) else "result"
-                    chk.violation("ResolverS model/implementation correspondence broken (%s; static_opt=%d, budget %d): impl %s model %s"
-                                  % (what, s, b, str(ci)[:300], str(cm)[:300]), dict(rep, theorems=THEOREMS), found=False)
-                    bad = True
-                    break
+                    corr = ("ResolverS model/implementation correspondence broken (%s; static_opt=%d, budget %d): impl %s model %s"
+                            % (what, s, b, str(ci)[:300], str(cm)[:300]), dict(rep, theorems=THEOREMS))
             if bad:
                 break
         if bad:
             continue
+        nv0 = len(chk.violations)
         # ---- the property on the implementation: the switch changes nothing observable
         anyok = False
         for bi, b in enumerate(BUDGETS):
             on, off = res[(b, True)], res[(b, False)]
-            rep = {"kind": "static_switch", "family": fam, "program": text, "budget": b, "matcher_opt": m,
+            rep = {"kind": "static_switch", "family": fam, "program": text, "defines": getattr(p, "defines", None), "budget": b, "matcher_opt": m,
                    "impl(static on)": str(on)[:600], "impl(static off)": str(off)[:600]}
             dist["ok" if on[0] == "OK" else "err"] += 1
             anyok = anyok or on[0] == "OK" or off[0] == "OK"
@@ -177,7 +244,8 @@ def run_streams(chk, quick, n=None):
                     chk.known("F70", F70_TEXT)
                     continue
                 chk.violation("the static-value optimisation changes the result (budget %d): with %s without %s"
-                              % (b, str(sig(on))[:200], str(sig(off))[:200]), rep)
+                              % (b, str(sig(on))[:200], str(sig(off))[:200]),
+                              dict(rep, model_disagrees_too=(corr[0][:300] if corr else None), theorems=["C08_static_switch", "static_known_sound"]))
                 break
             if on[0] == "OK" and on[2] != off[2]:
                 dist["passes_differ"] += 1
@@ -186,6 +254,10 @@ def run_streams(chk, quick, n=None):
                     chk.violation("pass counts of the two static settings are not (n, n) or (1, 2): %d with, %d without the optimisation"
                                   % (on[2], off[2]), dict(rep, theorems=["C08_static_switch"]), found=False)
                     break
+        if corr is not None:
+            ndis += 1
+            if len(chk.violations) == nv0:
+                chk.violation(corr[0], corr[1], found=False)
         if anyok and mixed:
             chk.nontriv(text)
         if pi % max(1, n // 5) == 1:
@@ -201,7 +273,8 @@ def replay(chk, rep):
     R = RunnerS(("debug",))
     r = rep.get("replay", rep)
     m = r.get("matcher_opt", True)
-    cases = [(r["program"], b, s, m) for b in BUDGETS for s in (True, False)]
+    dfs = ",".join("%s=%s" % kv for kv in sorted((r.get("defines") or {}).items()))
+    cases = [(r["program"], b, s, m, dfs) for b in BUDGETS for s in (True, False)]
     out = R.impl(cases)
     print("program:\n%s" % r["program"])
     for c, o in zip(cases, out):
@@ -227,7 +300,7 @@ if __name__ == "__main__":
     for what, rp, found in chk.violations[:a.show]:
         print("-" * 100)
         print(what, "(found=%s)" % found)
-        for k in ("family", "program", "budget", "static_opt", "matcher_opt", "impl", "model", "impl(static on)", "impl(static off)"):
+        for k in ("family", "program", "defines", "budget", "static_opt", "matcher_opt", "impl", "model", "impl(static on)", "impl(static off)"):
             if k in rp:
                 print("%s: %s" % (k, rp[k]))
     sys.exit(1 if chk.violations else 0)
